@@ -195,6 +195,13 @@ func (e2eFamily) Gen(n int, seed int64, mode, tier string) []interface{} {
 			s.sub("subA", []string{"t/#"}, []int{0})
 			s.connect(1, "subB", "c-subB", "", 60, nil)
 			s.sub("subB", []string{"t/b/#"}, []int{0})
+			if rng.Intn(2) == 0 {
+				// a second subscriber on the publisher's node, subscribed after the remote one: the
+				// matching subscriptions then alternate between the two nodes
+				s.gossipAll()
+				s.connect(0, "subC", "c-subC", "", 60, nil)
+				s.sub("subC", []string{"t/b/+", "#"}[rng.Intn(2):][:1], []int{0})
+			}
 			s.gossipAll()
 			s.connect(0, "pub", "c-pub", "", 60, nil)
 			s.connect(0, "twin", "c-pub", "tw", 60, nil) // same client id, other mount point
@@ -498,14 +505,24 @@ func (e2eFamily) Gen(n int, seed int64, mode, tier string) []interface{} {
 			s.add(e2eOp{Op: "gossip", Src: 0, N: 1})
 			s.connect(1, "new", "shared", "", 60, nil)
 			s.sub("new", []string{"t/#"}, []int{0})
+			// the taking-over node queued the old record's tombstone, then the new record, then the new
+			// subscription: the bystander and the old host may get them in either order
+			rev2, rev0 := rng.Intn(2) == 0, rng.Intn(2) == 0
 			if rng.Intn(2) == 0 {
-				s.add(e2eOp{Op: "gossip", Src: 1, N: 2})
+				s.add(e2eOp{Op: "gossip", Src: 1, N: 2, Rev: rev2})
 				s.add(e2eOp{Op: "gossip", Src: 0, N: 2})
 			} else {
 				s.add(e2eOp{Op: "gossip", Src: 0, N: 2})
-				s.add(e2eOp{Op: "gossip", Src: 1, N: 2})
+				s.add(e2eOp{Op: "gossip", Src: 1, N: 2, Rev: rev2})
 			}
-			s.add(e2eOp{Op: "gossip", Src: 1, N: 0})
+			s.add(e2eOp{Op: "gossip", Src: 1, N: 0, Rev: rev0})
+			if rng.Intn(2) == 0 {
+				// a third generation, on the bystander, while it holds whatever the order above left it with
+				s.connect(2, "third", "shared", "", 60, nil)
+				s.add(e2eOp{Op: "gossip", Src: 2, N: 1, Rev: rng.Intn(2) == 0})
+				s.add(e2eOp{Op: "gossip", Src: 2, N: 0, Rev: rng.Intn(2) == 0})
+				s.add(e2eOp{Op: "send", C: "new", P: "ping"})
+			}
 			s.connect(2, "pub", "c-pub", "", 60, nil)
 			s.pub("pub", "t/x", "hello", 0, false)
 			s.add(e2eOp{Op: "send", C: "old", P: "ping"})
@@ -625,13 +642,14 @@ func (e2eFamily) Gen(n int, seed int64, mode, tier string) []interface{} {
 			// C14: placements of publisher and subscribers over 2-3 nodes, unreachable subsets
 			nodes := 2 + rng.Intn(2)
 			s := newScript(rng, nodes)
-			k := 0
-			for nn := 0; nn < nodes; nn++ {
-				for j := 0; j < rng.Intn(3); j++ {
-					c := fmt.Sprintf("s%d", k)
-					k++
-					s.connect(nn, c, "c-"+c, "", 60, nil)
-					s.sub(c, []string{[]string{"t/#", "t/+", "u"}[rng.Intn(3)]}, []int{rng.Intn(2)})
+			// subscribers placed on the nodes in random order (so that the publisher's view of the
+			// matching subscriptions is not grouped by node), gossip after each
+			for k := 0; k < rng.Intn(3*nodes); k++ {
+				c := fmt.Sprintf("s%d", k)
+				s.connect(rng.Intn(nodes), c, "c-"+c, "", 60, nil)
+				s.sub(c, []string{[]string{"t/#", "t/+", "u"}[rng.Intn(3)]}, []int{rng.Intn(2)})
+				if rng.Intn(2) == 0 {
+					s.gossipAll()
 				}
 			}
 			s.gossipAll()
@@ -645,7 +663,18 @@ func (e2eFamily) Gen(n int, seed int64, mode, tier string) []interface{} {
 					}
 				}
 				s.add(e2eOp{Op: "unreachable", Peers: down})
+				if rng.Intn(3) == 0 {
+					// a destination that can be reached but whose log refuses the message
+					s.add(e2eOp{Op: "failappend", N: rng.Intn(nodes), K: 1})
+				}
 				s.pub("pub", []string{"t/a", "u", "v"}[rng.Intn(3)], fmt.Sprintf("m%d", r), rng.Intn(2), false)
+				s.add(e2eOp{Op: "failappend", N: 0, K: 0})
+				if nodes > 1 {
+					s.add(e2eOp{Op: "failappend", N: 1, K: 0})
+				}
+				if nodes > 2 {
+					s.add(e2eOp{Op: "failappend", N: 2, K: 0})
+				}
 			}
 			out = append(out, s.in)
 		case "tenants":
